@@ -37,9 +37,11 @@ ASSUMPTIONS = [
     "an exception from is_valid is not 'reported valid'; it is tallied here and judged by C14",
     "V4 (completeness) is only demanded for strict identification lines, all-ASCII content and an upper- or lower-case 4-hex-digit checksum or none",
 ]
-MUST_FIRE = {"quick": ["ck_zero_judged", "ck_wrong_judged", "ck_good_judged", "ck_none_judged", "V4_checked", "direct_construct"], "thorough": ["ck_zero_judged", "ck_wrong_judged", "ck_good_judged", "ck_none_judged", "V4_checked", "direct_construct", "ck_zero_and_crc_zero"]}
+MUST_FIRE = {"quick": ["ck_zero_judged", "ck_wrong_judged", "ck_good_judged", "ck_none_judged", "V4_checked", "direct_construct", "accessor_before_is_valid"], "thorough": ["ck_zero_judged", "ck_wrong_judged", "ck_good_judged", "ck_none_judged", "V4_checked", "direct_construct", "ck_zero_and_crc_zero"]}
 
 HEX4 = re.compile(rb"^[0-9A-Fa-f]{4}$")
+# a message object has a call history too: what was read from it before is_valid is evaluated
+ACCESSORS = ["identification_line", "payload", "as_bytes", "expected_checksum", "end_line", "data_lines", "is_valid", "message_type", "__str__", "__len__"]
 FAULTS = ["bitflip", "bitflip", "ck_replace", "ck_replace", "ck_replace", "bang_inject", "nonascii_inject", "ident_damage"]
 
 
@@ -59,7 +61,8 @@ def gen(rng, tier, index):
     if rng.random() < 0.02:  # rare: search a readout whose true CRC is 0 is hopeless; instead force checksum 0000
         faults.append({"k": "ck_replace", "pos": 0, "bit": 0, "ck": "0000"})
     raw, _ = apply(spec, faults)
-    yield {"spec": spec, "faults": faults, "cuts": fragment.draw(rng, len(raw), [raw.find(b"!"), raw.find(b"!") + 1, raw.find(b"\n")])}
+    pre = [rng.choice(ACCESSORS) for _ in range(rng.choice([0, 0, 0, 1, 2, 4]))]
+    yield {"spec": spec, "faults": faults, "pre": pre, "cuts": fragment.draw(rng, len(raw), [raw.find(b"!"), raw.find(b"!") + 1, raw.find(b"\n")])}
 
 
 def apply(spec, faults):
@@ -99,8 +102,20 @@ def apply(spec, faults):
     return bytes(raw), fired
 
 
-def judge(readout, raw: bytes, add, bump, states, origin: str):
+def touch(readout, pre, bump):
+    for name in pre:
+        try:
+            v = getattr(readout, name)
+            if callable(v):
+                v()
+            bump("accessor_before_is_valid")
+        except Exception:  # noqa: BLE001 - C14's business
+            bump("accessor_raised")
+
+
+def judge(readout, raw: bytes, add, bump, states, origin: str, pre=()):
     """The implications V1..V5 on one DataReadout whose bytes are `raw`."""
+    touch(readout, pre, bump)
     try:
         valid = bool(readout.is_valid)
     except Exception:  # noqa: BLE001 - C14's business
@@ -178,7 +193,7 @@ def execute(sc):
             except Exception:  # noqa: BLE001
                 bump("as_bytes_raised")
                 continue
-            judge(m, mb, add, bump, states, "reader")
+            judge(m, mb, add, bump, states, "reader", sc.get("pre") or ())
             judged += 1
     else:
         bump("read_raised")
@@ -189,7 +204,7 @@ def execute(sc):
         direct = None
         bump("direct_construct_raised")
     if direct is not None:
-        judge(direct, raw.lstrip(), add, bump, states, "direct")
+        judge(direct, raw.lstrip(), add, bump, states, "direct", sc.get("pre") or ())
         judged += 1
     for k, v in fired.items():
         probes[f"fault_{k}"] = probes.get(f"fault_{k}", 0) + v
@@ -202,7 +217,7 @@ def execute(sc):
         "probes": probes,
         "states": states,
         "sim_s": len(raw) / reader_rig.LINE_RATE,
-        "summary": {"readout": raw[:200].decode("latin-1"), "octets": len(raw), "faults": sc["faults"], "cuts": sc["cuts"] if sc["cuts"]["m"] != "list" else {"m": "list", "at": sc["cuts"]["at"][:16]}, "returned_by_reader": len(fed.messages)},
+        "summary": {"readout": raw[:200].decode("latin-1"), "octets": len(raw), "faults": sc["faults"], "accessors_read_before_is_valid": sc.get("pre"), "cuts": sc["cuts"] if sc["cuts"]["m"] != "list" else {"m": "list", "at": sc["cuts"]["at"][:16]}, "returned_by_reader": len(fed.messages)},
     }
 
 
@@ -213,6 +228,8 @@ def summarise(sc):
 def candidates(sc):
     if sc["cuts"]["m"] != "whole":
         yield dict(copy.deepcopy(sc), cuts={"m": "whole"})
+    for red in shrink.list_reductions(sc.get("pre") or []):
+        yield dict(copy.deepcopy(sc), pre=red)
     for red in shrink.list_reductions(sc["faults"]):
         yield dict(copy.deepcopy(sc), faults=red)
     for red in shrink.list_reductions(sc["spec"]["lines"]):
